@@ -365,3 +365,8 @@ SUBCHECKS = [
         doc="throw/integrate sequences on one object: integral, geometric integral, pass count and uncertainty equal a fresh object's, bit for bit",
     ),
 ]
+
+# the same oracles in interpreters started with -O / -OO (see core.env_variant)
+from ..core import env_variant  # noqa: E402
+
+SUBCHECKS.append(env_variant(__name__, next(sc for sc in SUBCHECKS if sc.name == "pointwise")))
